@@ -2,6 +2,7 @@ package transport
 
 import (
 	"context"
+	"errors"
 	"net"
 	"sync"
 	"time"
@@ -18,6 +19,8 @@ const (
 )
 
 var _ Transport = (*ReuseConnTransport)(nil)
+
+var errNewConnClosed = errors.New("new connection was closed before use")
 
 // ReuseConnTransport is for old tcp protocol. (no pipelining)
 type ReuseConnTransport struct {
@@ -192,17 +195,25 @@ func (t *ReuseConnTransport) asyncDial(ctx context.Context) (*reusableConn, erro
 		var rc *reusableConn
 		if c != nil {
 			rc = newReusableConn(c, t.opts.IdleTimeout)
-			rc.exitIdle()
-			t.m.Lock()
-			if t.closed {
-				t.m.Unlock()
+			if closed := rc.exitIdle(); closed {
+				// The idle timer fired, or the connection broke, before
+				// the connection could be taken. It is not in serving
+				// state, so it must not be handed out nor released.
 				rc.close()
 				rc = nil
-				err = ErrClosedTransport
+				err = errNewConnClosed
 			} else {
-				t.conns[rc] = struct{}{}
-				t.m.Unlock()
-				debugLogTransportConnOpen(c, t.logger)
+				t.m.Lock()
+				if t.closed {
+					t.m.Unlock()
+					rc.close()
+					rc = nil
+					err = ErrClosedTransport
+				} else {
+					t.conns[rc] = struct{}{}
+					t.m.Unlock()
+					debugLogTransportConnOpen(c, t.logger)
+				}
 			}
 		}
 
